@@ -149,8 +149,10 @@ def run(repo: Repo, tier: str) -> Report:
     if okr and idx_name:
         first = ast.unparse(ret[0].value.elts[0])
         src = env.get(first)
-        okm = src is not None and ast.unparse(src).replace(" ", "") in (f"np.where(mask,values[{idx_name[0]}],0)", idx_name[0]) and \
-            ("values" not in env or norm_stmt(env["values"]) == f"np.arange({keys_name}.size)")
+        src_txt = ast.unparse(src).replace(" ", "") if src is not None else ""
+        if "values" in env:
+            src_txt = src_txt.replace(f"values[{idx_name[0]}]", norm_stmt(env["values"]).replace(" ", "") + f"[{idx_name[0]}]")
+        okm = src is not None and src_txt in (f"np.where(mask,np.arange({keys_name}.size)[{idx_name[0]}],0)", idx_name[0])
         ob("R-FORMULA", UFILE, "to_linspace", "the returned codes are the dense indices 0..k-1", bool(okm),
            f"codes = {ast.unparse(src) if src is not None else None}", src if src is not None else "codes")
 
